@@ -1000,6 +1000,123 @@ fn check_word(w: i64, rep: &mut Report) {
 // Enumeration
 
 /// Valid opcode bytes per the union of both specifications (so that drift in either is exercised).
+// ---------------------------------------------------------------------------------------------
+// Check: the per-group op types (`asm::Stack`, `asm::Pred`, ...) parse with their own opcode set
+
+type GroupParse = fn(&mut dyn Iterator<Item = u8>) -> Option<Result<(String, Vec<u8>), String>>;
+
+macro_rules! group_table {
+    ($($g:ident),*) => {
+        vec![$((
+            stringify!($g),
+            (|it: &mut dyn Iterator<Item = u8>| {
+                use asm::TryFromBytes;
+                let mut it = it;
+                asm::$g::try_from_bytes(&mut it).map(|r| match r {
+                    Ok(g) => {
+                        let enc: Vec<u8> = asm::ToBytes::to_bytes(&g).collect();
+                        let op: Op = g.into();
+                        Ok((format!("{op:?}"), enc))
+                    }
+                    Err(FromBytesError::InvalidOpcode(InvalidOpcodeError(b))) => Err(format!("InvalidOpcode({b})")),
+                    Err(FromBytesError::NotEnoughBytes(_)) => Err("NotEnoughBytes".to_string()),
+                })
+            }) as GroupParse,
+            (|b: u8| asm::opcode::$g::try_from(b).ok().map(u8::from)) as fn(u8) -> Option<u8>,
+        )),*]
+    };
+}
+
+fn groups() -> Vec<(&'static str, GroupParse, fn(u8) -> Option<u8>)> {
+    group_table!(Stack, Pred, Alu, Access, Crypto, TotalControlFlow, Memory, ParentMemory, StateRead, Compute)
+}
+
+/// Byte `b` followed by `tail[..n]` through the parser of group `gname`.
+fn check_group(cx: &Cx, gname: &str, b: u8, fill: u8, n: usize, rep: &mut Report) {
+    wal::tick();
+    let Some((_, parse, opc)) = groups().into_iter().find(|g| g.0 == gname) else {
+        rep.machinery_errors.push(format!("unknown group {gname}"));
+        return;
+    };
+    let mut bytes = vec![b];
+    bytes.extend((0..n).map(|i| if fill == 0 { 0xA1 + i as u8 } else { fill }));
+    let case = || json!({"kind": "group", "group": gname, "byte": b, "fill": fill, "n": n});
+    let r = catch(|| {
+        let mut consumed = 0usize;
+        let mut it = bytes.iter().copied().inspect(|_| consumed += 1);
+        let r = parse(&mut it);
+        drop(it);
+        (r, consumed, opc(b))
+    });
+    let (got, consumed, oc) = match r {
+        Ok(x) => x,
+        Err((site, msg)) => {
+            rep.eval(None, 3);
+            put(rep, panic_sig(&site, &msg), || (case(), "Ok or Err".into(), format!("panic {site}: {msg}"), String::new()));
+            return;
+        }
+    };
+    let ok = matches!(got, Some(Ok(_)));
+    rep.eval(if ok { Some(hash_of(&("group", gname, &bytes))) } else { None }, hash_of(&(gname, &bytes, &got, consumed)));
+    for spec in cx.specs() {
+        let so = spec.at(b).filter(|o| o.groups().first().map(|g| g == gname).unwrap_or(false));
+        // expectation from the specification alone
+        let (want, want_consumed): (Option<Result<(String, Vec<u8>), String>>, usize) = match so {
+            None => (Some(Err(format!("InvalidOpcode({b})"))), 1),
+            Some(o) if n < o.imm => (Some(Err("NotEnoughBytes".into())), 1 + n),
+            Some(o) => {
+                let imm = if o.imm == 8 { Some(i64::from_be_bytes(bytes[1..9].try_into().unwrap())) } else { None };
+                (Some(Ok((o.debug(imm), bytes[..1 + o.imm].to_vec()))), 1 + o.imm)
+            }
+        };
+        if got != want {
+            let clause = match (&got, &want) {
+                (Some(Err(g)), Some(Err(_))) if g.starts_with("NotEnough") => "not_enough_bytes",
+                (_, Some(Err(w))) if w.starts_with("Invalid") => "invalid_opcode",
+                (_, Some(Err(_))) => "not_enough_bytes",
+                _ => "roundtrip.bytes",
+            };
+            put(rep, Signature::new("C13", clause).feat("group_level_parser").feat(format!("spec:{}", spec.name)), || {
+                (case(), format!("{want:?} (per {})", spec.name), format!("{got:?}"), format!("#[test]\nfn replay() {{\n    use essential_asm::TryFromBytes;\n    let bytes = hex::decode(\"{}\").unwrap();\n    let r = essential_asm::{gname}::try_from_bytes(&mut bytes.iter().copied());\n    println!(\"{{r:?}}\");\n}}\n", hex::encode(&bytes)))
+            });
+        } else if consumed != want_consumed && matches!(want, Some(Ok(_))) {
+            // (how much of the input a FAILED parse has looked at is not specified)
+            put(rep, Signature::new("C13", "immediate_width").feat("group_level_parser").feat("bytes_consumed"), || {
+                (case(), format!("consumes {want_consumed} byte(s)"), format!("consumed {consumed}"), String::new())
+            });
+        }
+        // the group's opcode enum accepts exactly the group's bytes
+        let want_oc = so.map(|_| b);
+        if oc != want_oc {
+            put(rep, Signature::new("C13", &format!("opcode_set.{}", spec.name)).feat("group_level_opcode").feat(format!("group:{gname}")), || {
+                (case(), format!("opcode::{gname}::try_from({}) -> {want_oc:?}", hx(b)), format!("{oc:?}"), String::new())
+            });
+        }
+    }
+}
+
+/// A `Push` (9 bytes) at every byte offset `k` of a stream of one-byte ops, followed by one more
+/// op: whatever buffering a parser does internally, a whole op is a whole op at any offset.
+fn check_alignment(cx: &Cx, k: usize, rep: &mut Report) {
+    let one: Vec<u8> = cx.rows.iter().filter(|r| !r.ctor.takes_imm()).map(|r| asm::to_bytes([r.ctor.make(0)]).next().unwrap()).collect();
+    let (a, b) = (one[0], one[one.len() / 2]);
+    let mut bytes: Vec<u8> = (0..k).map(|i| if i % 3 == 0 { b } else { a }).collect();
+    bytes.push(0x01);
+    bytes.extend_from_slice(&0x0102_0304_0506_0708i64.to_be_bytes());
+    bytes.push(b);
+    check_bytes(cx, &bytes, rep);
+    // and a stream made of pushes only, ending at offset 9*m (+ one op)
+    if k % 9 == 0 {
+        let mut bytes = vec![];
+        for i in 0..k / 9 {
+            bytes.push(0x01);
+            bytes.extend_from_slice(&(0x0101_0101_0101_0100i64 + i as i64).to_be_bytes());
+        }
+        bytes.push(a);
+        check_bytes(cx, &bytes, rep);
+    }
+}
+
 fn valid_bytes(cx: &Cx) -> Vec<u8> {
     (0..=255u8).filter(|&b| cx.yaml.at(b).is_some() || cx.pinned.at(b).is_some()).collect()
 }
@@ -1057,12 +1174,13 @@ fn run(cfg: &RunCfg, rep: &mut Report) {
     let alpha = seq_alphabet(&cx);
     let balpha = byte_alphabet(&cx);
     rep.bound_completed = format!(
-        "256 opcode bytes; 65536 byte pairs; {} immediates x {} ops (with truncations); op sequences of length <= {maxlen} over {} symbols (truncations for length <= 2); byte strings of length <= 3 over {} bytes; {} short-name consts",
+        "256 opcode bytes; 65536 byte pairs; {} immediates x {} ops (with truncations); op sequences of length <= {maxlen} over {} symbols (truncations for length <= 2); byte strings of length <= 3 over {} bytes; {} short-name consts; a Push at every offset 0..={} of a stream of one-byte ops; 10 group-level parsers x 256 bytes x 2 fills x 10 truncations",
         imms.len(),
         cx.rows.len(),
         alpha.len(),
         balpha.len(),
-        cx.rows.len()
+        cx.rows.len(),
+        cfg.tier.pick(1200usize, 9000usize)
     );
     let mut idx = 0u64;
     let mut next = || {
@@ -1157,6 +1275,32 @@ fn run(cfg: &RunCfg, rep: &mut Report) {
             }
         }
     }
+    // (6) a Push at every offset of a long stream
+    let kmax = cfg.tier.pick(1200usize, 9000usize);
+    for k in 0..=kmax {
+        if next() {
+            check_alignment(&cx, k, rep);
+            if k == 300 {
+                rep.sample(|| json!({"push_at_offset": k, "stream_length": k + 10}));
+            }
+        }
+    }
+    // (7) the per-group op types: every byte x two fills x every truncation, through each group's parser
+    for (gname, ..) in groups() {
+        for b in 0..=255u8 {
+            if !next() {
+                continue;
+            }
+            for fill in [0u8, 0x01] {
+                for n in 0..=9usize {
+                    check_group(&cx, gname, b, fill, n, rep);
+                }
+            }
+            if b == 0x01 && gname == "Pred" {
+                rep.sample(|| json!({"group_parser": gname, "byte": hx(b), "followed_by": "0..=9 bytes"}));
+            }
+        }
+    }
 }
 
 fn replay(case: &Value) -> Result<bool, String> {
@@ -1180,6 +1324,7 @@ fn replay(case: &Value) -> Result<bool, String> {
         "word" => check_word(case["word"].as_i64().ok_or("word")?, &mut rep),
         "spec" => check_spec(&cx, &mut rep),
         "short" => check_short(&cx, &mut rep),
+        "group" => check_group(&cx, case["group"].as_str().ok_or("group")?, case["byte"].as_u64().ok_or("byte")? as u8, case["fill"].as_u64().unwrap_or(0) as u8, case["n"].as_u64().unwrap_or(0) as usize, &mut rep),
         k => return Err(format!("unknown case kind {k}")),
     }
     let clause = case["clause"].as_str();
